@@ -38,6 +38,10 @@ class SectionOutput(Output):
         ):
             return
 
+        if not self._may_write(None):
+            # a quiet section writes nothing, so what it shows stays where it is
+            return
+
         if lines:
             # Multiply lines by 2 to cater for each new line added between content
             removed_content = self._content[-(lines * 2) :]
